@@ -211,6 +211,35 @@ example (t : Tbl) : ∀ s c, (fun _ : List Nat => (none : Option Nat)) s = some 
     c ≠ ESC ∧ t.sym c ≠ [] ∧ t.sym c <+: s := by
   intro s c h; cases h
 
+/-- the encoder-side invariant the decoder relies on.  `compress_bulk` runs the matcher on a window that continues
+past the string: the rest of the chunk, then the terminator byte as a sentinel, then left-over buffer bytes.  If no
+symbol of two or more bytes contains the terminator (`Tbl.termFree`, what `make_table` must guarantee), a matcher that is
+sound *for the window* (its symbol is a non-empty prefix of the window — what the hash / short-code comparison checks)
+never consumes the sentinel, and the greedy encoder round-trips through the decoder for every string and every junk. -/
+theorem fsst_greedy_sentinel_roundtrip (pick : List Nat → Option Nat) (t : Tbl)
+    (hp : ∀ win c, pick win = some c → c ≠ ESC ∧ t.sym c ≠ [] ∧ t.sym c <+: win)
+    (hinv : t.termFree = true) (junk after s : List Nat) :
+    decBlocks t after (encodeTokens (greedy (windowed pick t.term junk) t s.length s)) = some s :=
+  fsst_greedy_roundtrip (windowed pick t.term junk) t
+    (windowed_sound pick t junk hp (termFree_sym t hinv)) after s
+
+/-- without the invariant the statement fails: with the symbol `[7, 0]` and terminator `0`, the string `[7]` is
+encoded as that symbol (the window is `7, 0, …`) and expands to `[7, 0]` — a spurious trailing terminator byte -/
+theorem fsst_sentinel_invariant_needed :
+    ∃ (pick : List Nat → Option Nat) (t : Tbl),
+      (∀ win c, pick win = some c → c ≠ ESC ∧ t.sym c ≠ [] ∧ t.sym c <+: win) ∧ t.termFree = false ∧
+      expand t (greedy (windowed pick t.term []) t 1 [7]) = [7, 0] := by
+  refine ⟨fun win => if [7, 0] <+: win then some 0 else none,
+    { switch := true, syms := #[[7, 0]], term := 0 }, ?_, by decide, by decide⟩
+  intro win c h
+  by_cases hw : [7, 0] <+: win
+  · simp only [hw, if_true, Option.some.injEq] at h
+    subst h
+    exact ⟨by decide, by decide, hw⟩
+  · simp [hw] at h
+
+example : ({ switch := true, syms := #[[1, 2, 3], [0], [9, 9]], term := 0 } : Tbl).termFree = true := by decide
+
 theorem mapM_some {α β : Type} (f : α → Option β) (g : α → β) : ∀ l : List α,
     (∀ a ∈ l, f a = some (g a)) → l.mapM f = some (l.map g) := by
   intro l
